@@ -145,6 +145,31 @@ def main():
             results.append(f.result())
         if nfut is not None:
             native = nfut.result()
+    # stage 3: second chance.  Solver budgets are wall-clock, and stages 1-2 keep all cores busy; an obligation or canary
+    # that ran out of time there is tried once more, alone on the machine and with a longer budget, before it is
+    # called undecided.  (Only `unknown` answers are retried - never a refutation.)
+    for r in list(results):
+        if r.get("crash") or r.get("mode") != "prove":
+            continue
+        names = {o["name"] for o in r.get("results", []) if o["kind"] == "obligation" and o["status"] == "undecided"}
+        if not names:
+            continue
+        r2 = run_worker(mods, r["contract"], "prove", tmo * 5, names)
+        if r2.get("crash"):
+            continue
+        by = {o["name"]: o for o in r2.get("results", []) if o["kind"] == "obligation"}
+        r["results"] = [dict(by[o["name"]], retried=True) if o["name"] in by and o["kind"] == "obligation" and o["status"] == "undecided"
+                        else o for o in r["results"]]
+        r["solver_ms"] = r.get("solver_ms", 0) + r2.get("solver_ms", 0)
+    seen_can = {}
+    for r in results:
+        for o in r.get("results", []):
+            if o["kind"] == "canary" and not o["name"].endswith("/canary.normal_return_reachable"):
+                seen_can[o["name"]] = seen_can.get(o["name"]) == "refuted" and "refuted" or o["status"]
+    for cid in sorted(canary_contracts):
+        if any(n.startswith(cid + "/canary.") and st_ != "refuted" for n, st_ in seen_can.items()):
+            for b in bounds:
+                results.append(run_worker(mods, cid, "refute:%d:%d" % (b, cfg.get("unroll", 4)), tmo * 3, set()))
     results.sort(key=lambda r: (r["contract"], r["mode"]))
     if os.environ.get("PYVC_DEBUG"):
         for r in results:
@@ -265,7 +290,20 @@ def conclude(a, cfg, tier, seed, results, native, t0):
         if native.get("hang"):
             nat_fail.append({"inputs": {"note": native["hang"]}, "violated": [native["hang"]], "replay_fn": "replay"})
         elif native.get("crash"):
-            faults.append("native stand-in: %s %s" % (native["crash"], native.get("stderr", "")[-800:]))
+            # an exception the stand-in did not anticipate.  If it was RAISED INSIDE the code under test (innermost
+            # traceback frame in the repository: NameError, TypeError, AttributeError ... of changed code) that is the
+            # code's failure, not the checker's; anything raised in the harness itself stays a checker fault.
+            tb = native.get("stderr", "")
+            frames = [l.strip() for l in tb.split("\n") if l.strip().startswith('File "')]
+            repo_dir = os.path.realpath(os.environ.get("VERIF_REPO", "/repo")) + "/baize/"
+            inner = frames[-1] if frames else ""
+            if inner.startswith('File "%s' % repo_dir) or inner.startswith('File "%s' % (os.environ.get("VERIF_REPO", "/repo") + "/baize/")):
+                last = [l for l in tb.strip().split("\n") if l.strip()][-1] if tb.strip() else "exception"
+                nat_fail.append({"inputs": {"note": "the code under test raised an exception no oracle of the stand-in expects",
+                                            "traceback": tb[-1500:]},
+                                 "violated": ["unexpected %s at %s" % (last[:200], inner[:200])], "replay_fn": "replay"})
+            else:
+                faults.append("native stand-in: %s %s" % (native["crash"], tb[-800:]))
         else:
             for f in native.get("failures", []):
                 kf = matches_known(known, prop, "native", f.get("violated"), f.get("inputs"))
